@@ -247,6 +247,11 @@ static int canary_create(const CanaryDef &c) {
 void canary_init() {
     Arena &A = thread_arena();
     for (auto &c : canary_defs()) {
+#ifdef VERIF_TSAN
+        // ThreadSanitizer pass: the first use of the historical CRC in this process is left to the threads of a run
+        // (lazily built process-wide state would otherwise be complete before any thread starts)
+        if (c.legacy) { g_canary_ref.push_back(0); continue; }
+#endif
         if (c.legacy) setenv("LIBERASURECODE_WRITE_LEGACY_CRC", "1", 1); else unsetenv("LIBERASURECODE_WRITE_LEGACY_CRC");
         int d = canary_create(c); bool ok = false; u64 h = 0;
         if (d > 0) { h = canary_digest(d, c, A, &ok); liberasurecode_instance_destroy(d); }
@@ -263,7 +268,7 @@ static void op_canary(World &W, const Json &op) {
     size_t ci = (size_t) op["c"].num() % defs.size();
     // the legacy-CRC switch is process-wide: threaded runs only use canaries written with the switch off and never
     // touch the environment (otherwise two canaries of different profile would disturb each other - a harness artefact)
-    if (W.threaded) while (defs[ci].legacy) ci = (ci + 1) % defs.size();
+    if (W.threaded) { bool lg = W.env_set && ref::legacy_switch(W.env_val.c_str()); while (defs[ci].legacy != lg) ci = (ci + 1) % defs.size(); }   // (the set-up may have switched it on for the whole run)
     const CanaryDef &c = defs[ci];
     if (g_canary_ref.size() <= ci || g_canary_ref[ci] == 0) { W.probe("canary.no-reference"); return; }
     bool env_was_set = W.env_set; std::string env_was = W.env_val;
